@@ -33,8 +33,8 @@ CLAIMED['C18'] = dict(
    design_ref="5/C18")
 
 CLAIMED['C01'] = dict(
-   text="Kernel-checked for ALL strings and ALL accepted tables (props/C01.v, proofs/DecoderInv.v, proofs/DecoderSum.v): in the graph the decoder model builds (derivation + ring pass, compatible=False) every atom is non-aromatic, carries exactly the table's capacity for its (element, charge) minus its explicit H, and the orders of ALL bonds at it sum to at most that capacity; bonds have existing targets and order 1..3, ring bonds are stored symmetrically, no duplicate neighbours; the returned string is what the writer prints from that graph. The step from graph to printed string is not a theorem: the full statement (C01_full_statement) is REFUTED on the faithful model by the 100-ring witness (%100, known finding), 99 rings proved fine; every implementation output is judged by the extracted independent SMILES reader valid_smiles_under. State functions are regenerated from grammar_rules.py on every run; decoder model tied by exact-output correspondence (bounded-exhaustive + sampled, many tables).",
-   technique="Coq proof by invariant (graph valence invariant over the whole derivation and ring pass, all inputs) + refutation witness + exact correspondence of the decoder model + extracted independent-reader oracle",
+   text="Kernel-checked END TO END for ALL strings, ALL tables with '?' and both values of attribute (props/C01.v: C01_valid_smiles): whenever fewer than 100 pairs of atoms are joined by ring bonds, the string the decoder model returns is accepted by the independent SMILES reader of spec/Reader.v and the molecule read from it is a simple graph in Kekule form in which every atom stays within the capacity the table gives its (element, charge) minus explicit H. Route (all by induction over unbounded inputs): valence / symmetry / forest invariants of the derivation and ring pass (DecoderInv, DecoderSum, DecoderTree); the two shapes of decoded atoms and read-back of their printed tokens incl. decimal print/parse (WriterAtoms, DecFacts); tokenisation of the printed string (WriterLex, WriterToks); simulation of the reader along the writer's traversal with ring labels paired through the ring log (WriterSim); validity of the molecule read (WriterFinal). The bound is sharp: at 100 ring bonds the writer prints %100 and the statement is REFUTED on the faithful model (known finding). Side condition symbols_short: no symbol longer than the interpreter's int() digit limit. State functions are regenerated from grammar_rules.py on every run; decoder model tied by exact-output correspondence (bounded-exhaustive + sampled, many tables, table histories); every implementation output is also judged by the extracted reader.",
+   technique="Coq proof, end to end (graph invariants + writer/reader simulation: valid_smiles_under T (decoder s) = true below 100 ring pairs) + refutation witness at the bound + exact correspondence of the decoder model + extracted independent-reader oracle",
    design_ref="5/C01")
 CLAIMED['C02'] = dict(
    text="Proof (partial, see props/C02.v): every rule's arithmetic (atom, branch, ring; regenerated from source) and every symbol table (regenerated) equals the documented grammar; index code = documented base-16 code. The refinement 'decoder = documented derivation' (C02_full_statement) is not yet a theorem: it is checked per input by the extracted documented-grammar evaluator (spec/DocGrammar.v) against the molecule the independent reader reads from the implementation's output - bounded-exhaustive over a rule-covering symbol set and sampled.",
@@ -55,7 +55,7 @@ CLAIMED['C12'] = dict(
    design_ref="5/C12")
 
 CLAIMED['C07'] = dict(
-   text="Kernel-checked for EVERY accepted table and EVERY finite sequence of alphabet symbols (props/C07.v, proofs/AlphaClosure.v): the alphabet as a set is exactly the documented one; every atom symbol of the alphabet - neutral keys (all 118 elements, finite sweep lifted) and charged keys (any canonical charge, through a proved decimal print/parse round trip) - is a symbol of the grammar with its key's capacity; the concatenation tokenises back into the same symbols; the decoder returns (raises nothing); and every atom of the graph it returns respects the capacity the table gives it. The presets are proved to satisfy the hypothesis. The hypothesis 'key no longer than the interpreter's int() digit limit' is needed: without it the property fails on the implementation (known finding F-C07-int-digits, found by this proof). Not a theorem: the step from the graph to the printed SMILES (judged per run by the extracted reader on strings over the returned alphabet); aliasing of the returned set is a known finding shared with C12.",
+   text="Kernel-checked for EVERY accepted table and EVERY finite sequence of alphabet symbols (props/C07.v, proofs/AlphaClosure.v): the alphabet as a set is exactly the documented one; every atom symbol of the alphabet - neutral keys (all 118 elements, finite sweep lifted) and charged keys (any canonical charge, through a proved decimal print/parse round trip) - is a symbol of the grammar with its key's capacity; the concatenation tokenises back into the same symbols; the decoder returns (raises nothing); and every atom of the graph it returns respects the capacity the table gives it. The presets are proved to satisfy the hypothesis. The hypothesis 'key no longer than the interpreter's int() digit limit' is needed: without it the property fails on the implementation (known finding F-C07-int-digits, found by this proof). With C01's last mile the returned SMILES itself is proved valid under the table (C07_alphabet_strings_valid, fewer than 100 ring pairs). Aliasing of the returned set is a known finding shared with C12.",
    technique="Coq proof (alphabet content + symbol-by-symbol grammar membership incl. decimal round trip + lexer round trip + decoder success and valence invariant) + extracted-reader oracle on strings over the returned alphabet + exact correspondence",
    design_ref="5/C07")
 
